@@ -193,6 +193,11 @@ def run_one(item, extra):
     seed, scn, mo, fam = gen(item, extra["tier"])
     if scn is None:
         return {"evaluations": 1, "probes": {"no-acceptable-program": 1}, "findings": [], "distinct": []}
+    lr = random.Random(seed ^ 0x10907)
+    if lr.random() < 0.25 and scn["config"].get("transport", "asyncio") == "asyncio":
+        # what a loggingConfiguration sends to the log about a failed attempt must not touch the error handling
+        from checks import c11
+        scn["machines"]["m"]["logging"] = json.loads(json.dumps(lr.choice(c11.LOGGING)))
     return check(scn, seed, mo, fam)
 
 
